@@ -148,6 +148,17 @@ pub fn check(r: &Runner, ctx: &mut Ctx, l: &mut Local, rec: &CaseRec) -> Result<
     if rec.sub == "race" {
         return check_race_case(r, ctx, l, rec);
     }
+    if rec.sub == "alignment" {
+        let mut a = rec.clone();
+        a.place = crate::arena::Placement::Interior(0);
+        let (oa, ob) = (run_rec(ctx, &a), run_rec(ctx, rec));
+        let (na, nb) = (super::p_meta::norm(&oa), super::p_meta::norm(&ob));
+        if na.st != nb.st || na.method != nb.method || na.path != nb.path || na.version != nb.version || na.code != nb.code || na.reason != nb.reason || na.headers != nb.headers {
+            return Err(Violation::new("C13/placement-dependent/in-process", format!("{} at start alignment 0 but {} at placement {:?}", na.st.show(), nb.st.show(), rec.place), rec));
+        }
+        r.account(l, rec, true, "alignment replay");
+        return Ok(());
+    }
     if rec.sub != "variant-pair" {
         // lattice / build records are not replayable as cases: re-run the whole check
         return Ok(());
@@ -282,6 +293,21 @@ fn gen_corpus(r: &Runner, n: usize) -> Vec<CaseRec> {
             if pos % 2 == 0 {
                 out.push(CaseRec::new("variant-pair", Entry::Headers, 0, 4, [&b"Name: v"[..], &fv, b"\r\nB: c\r\n\r\n"].concat()));
             } else {
+                out.push(CaseRec::new("variant-pair", Entry::ReqParse, 0, 4, [&b"GET /"[..], &ft, b" HTTP/1.1\r\n\r\n"].concat()));
+            }
+        }
+    }
+    // two special bytes at a lane distance (8 / 16 / 32 / 64) inside a long value / target:
+    // folds of several vectors (min/max, or/and) go wrong for *pairs* at the same lane
+    for dist in [8usize, 16, 32, 64] {
+        for (a, b) in [(0x09u8, 0x00u8), (0x09, 0x08), (0x09, 0x1f), (0x80, 0x7f), (0xff, 0x7f), (0x7e, 0x7f), (0x20, 0x0a), (0x09, 0x0d)] {
+            for start in [0usize, 1, 7, 13, 31] {
+                let len = start + dist + 40;
+                let mut fv: Vec<u8> = (0..len).map(|i| b'a' + (i % 26) as u8).collect();
+                fv[start] = a;
+                fv[start + dist] = b;
+                let ft: Vec<u8> = fv.iter().map(|&c| if c == b' ' || c == b'\t' { b'!' } else { c }).collect();
+                out.push(CaseRec::new("variant-pair", Entry::Headers, 0, 4, [&b"Name: v"[..], &fv, b"\r\nB: c\r\n\r\n"].concat()));
                 out.push(CaseRec::new("variant-pair", Entry::ReqParse, 0, 4, [&b"GET /"[..], &ft, b" HTTP/1.1\r\n\r\n"].concat()));
             }
         }
@@ -484,6 +510,47 @@ pub fn run(r: &Runner) {
     let cases = gen_corpus(r, r.amount(300_000, 5_000_000) as usize);
     let corpus = format!("{}/corpus.bin", c13_dir());
     write_corpus(&corpus, &cases);
+    // in-process alignment independence: the structured part of the corpus (lane phases, long
+    // fields, pairs at lane distances) parsed at every start alignment 0..=63 (and ending at /
+    // straddling a page boundary) with the host's backend: all results must be identical
+    {
+        let n_random = r.amount(300_000, 5_000_000) as usize;
+        let structured: Vec<&CaseRec> = cases[n_random.min(cases.len())..].iter().filter(|c| c.buf.len() <= 400).collect();
+        r.par_enum("structured corpus cases at every start alignment 0..=63, end-abutting and page-straddling placement (in-process, host backend): results must not depend on the placement", structured.len() as u64, |ctx, l, idx| {
+            let base = structured[idx as usize];
+            let mut first: Option<super::p_meta::Norm> = None;
+            for pl in 0..67u8 {
+                let mut rec = (*base).clone();
+                rec.place = match pl {
+                    64 => crate::arena::Placement::End,
+                    65 => crate::arena::Placement::Start,
+                    66 => crate::arena::Placement::Cross((rec.buf.len() / 2).min(120) as u8),
+                    o => crate::arena::Placement::Interior(o),
+                };
+                let obs = run_rec(ctx, &rec);
+                let n = super::p_meta::norm(&obs);
+                match &first {
+                    None => first = Some(n),
+                    Some(f) => {
+                        let same = f.st == n.st && f.method == n.method && f.path == n.path && f.version == n.version && f.code == n.code && f.reason == n.reason && f.headers == n.headers;
+                        if !same {
+                            rec.sub = std::borrow::Cow::Borrowed("alignment");
+                            return Err(Violation::new(
+                                "C13/placement-dependent/in-process",
+                                format!("the same bytes give {} at start alignment 0 but {} at placement {:?} for {} on {:?}", f.st.show(), n.st.show(), rec.place, rec.entry.name(), show_bytes(&rec.buf, 120)),
+                                &rec,
+                            ));
+                        }
+                    }
+                }
+            }
+            r.account(l, base, vector_path(&base.buf), "all placements agree");
+            Ok(())
+        });
+        if r.stopped() {
+            return;
+        }
+    }
     let sub_n = 3000.min(cases.len());
     let subcorpus = format!("{}/subcorpus.bin", c13_dir());
     write_corpus(&subcorpus, &cases[..sub_n]);
